@@ -820,6 +820,6 @@ def expand_ambig(t):
 
 def show(t, depth=0):
     if t is None: return 'None'
-    if t[0] == 'T': return '%s:%r@%s' % (t[1], t[2], t[3])
+    if t[0] == 'T': return '%s:%r@%s' % (t[1], t[2], t[3]) if len(t) > 3 else '%s#%s' % (t[1], t[2])
     if t[0] == 'N': return '%s(%s)' % (t[1], ', '.join(show(c) for c in t[2]))
     return repr(t)
